@@ -21,3 +21,9 @@ func verifCmp3(a, b, c any) (ab, ba, bc, ac, aa Ordering) {
 func verifCmp3s(a, b, c any) (ab, ba, bc, ac, aa Ordering) {
 	return Cmp(a, b), Cmp(b, a), Cmp(b, c), Cmp(a, c), Cmp(a, a)
 }
+
+// verifToFloat: the conversion of an exact or inexact number to float64
+// (property C12: inexact arithmetic is IEEE 754 after this conversion).
+func verifToFloat(n Num) float64 {
+	return ConvertToFloat64(n)
+}
